@@ -11,3 +11,12 @@ func xor(dst, src []byte) {
 		dst[i] ^= src[i]
 	}
 }
+
+// leftPadded returns b prefixed with zero bytes up to size bytes. big.Int.Bytes() drops leading zero bytes,
+// but fixed-width protocol integers must keep them.
+func leftPadded(b []byte, size int) []byte {
+	if len(b) >= size {
+		return b
+	}
+	return append(make([]byte, size-len(b)), b...)
+}
